@@ -52,7 +52,7 @@ MPATHS = ["archive", "cleaner", "host", "helper"]
 PLAN = dict(
     quick=dict(
         # requirement vs table + cache (whole-cache invalidation): every interleaving to depth 5
-        hist=dict(np=2, bud=[1], depth=6, cache="all", pats=[[1], [2]]),
+        hist=[dict(np=2, bud=[1], depth=6, cache="all", pats=[[1], [2]])],
         # the code's invalidation rule: TLC must find the stale look-up
         stale=dict(np=2, bud=[1], depth=5, cache="self", pats=[[1], [2], [0]]),
         emit=dict(np=1, bud=[1], depth=3, cache="none", pats=[[1]]),
@@ -60,7 +60,9 @@ PLAN = dict(
         nsim=1200, hist_cap=3500, nrand_hist=700, content_cap=1100, nrand_content=350, tests_cases=120,
         grep_every=4, selftest=16),
     thorough=dict(
-        hist=dict(np=2, bud=[1, 2], depth=7, cache="all", pats=[[1], [2], [0]]),
+        hist=[dict(np=2, bud=[1], depth=8, cache="all", pats=[[1], [2], [0]]),
+              dict(np=2, bud=[1, 2], depth=5, cache="all", pats=[[1], [2], [1, 2]]),
+              dict(np=2, bud=[1], depth=8, cache="none", pats=[[1], [2]])],
         stale=dict(np=2, bud=[1], depth=5, cache="self", pats=[[1], [2], [0]]),
         emit=dict(np=2, bud=[1], depth=3, cache="none", pats=[[1], [2]], get=["I1", "I2", "P", "I3"]),
         content=[dict(np=2, maxlines=5, cbud=[0, 1, 2, INF], paths=MPATHS),
@@ -196,10 +198,10 @@ def run(prop, tier):
         return p
 
     w = max(2, min(8, lib.NCPU // 4))
-    jobs = [
-        ("hist", "Filters", wr("hist.cfg", cfg_text("SpecHist", plan["hist"], HIST_INV, ["LookupIsUnion"],
-                                                    view="HistView")),
-         dict(workers=w), True),
+    jobs = [("hist%d" % i, "Filters",
+             wr("hist%d.cfg" % i, cfg_text("SpecHist", c, HIST_INV, ["LookupIsUnion"], view="HistView")),
+             dict(workers=w), True) for i, c in enumerate(plan["hist"])]
+    jobs += [
         ("stale", "Filters", wr("stale.cfg", cfg_text("SpecHist", plan["stale"], HIST_INV)), dict(workers=2), False),
         ("emit", "FiltersMC", wr("emit.cfg", cfg_text("SpecH", plan["emit"], HIST_INV, constraint="EmitHist")),
          dict(workers=2, raw_cases=True, coverage=True), True),
@@ -229,7 +231,7 @@ def run(prop, tier):
                                  "LookupIsUnionInv; TLC says violation=%s error=%s" % (st.violation, st.error))
     cex = [l for l in st.out.splitlines() if l.startswith("State ")]
     print("model: cache invalidation rule 'self' (filters.py:93-94) refuted by TLC: LookupIsUnion violated after "
-          "%d steps; rule 'all' satisfies it on %d states" % (max(0, len(cex) - 1), res["hist"].distinct))
+          "%d steps; rule 'all' satisfies it on %d states" % (max(0, len(cex) - 1), res["hist0"].distinct))
     for mod_name, acts in (("emit", ("AddOne", "GetOne")), ("content0", ("StartC", "KeepLineC", "FinishC"))):
         for a in acts:
             if not res[mod_name].coverage.get(a):
@@ -307,9 +309,11 @@ def run(prop, tier):
     if not outs[-1]["stats"].get("add_filter_patched"):
         raise lib.MachineryError("vacuity: the insights.tests helper process did not load insights.tests")
     with_filters = sum(1 for c in ccases if any(c["allow"]))
+    vacuous = []
     if grep_runs < with_filters:
-        raise lib.MachineryError("vacuity: the host contexts ran grep -F %d times for %d contents with filters"
-                                 % (grep_runs, with_filters))
+        # decided after the verdict: a code change that loses the filters of an implementation also stops grep
+        vacuous.append("vacuity: the host contexts ran grep -F %d times for %d contents with filters"
+                       % (grep_runs, with_filters))
     if not grep_checked:
         raise lib.MachineryError("vacuity: the model's grep semantics was never cross-checked (R4)")
     nev = sum(len(t["events"]) for t in traces)
@@ -335,7 +339,7 @@ def run(prop, tier):
     # a rejected look-up ends the validation of its history: mark it as reported and validate the rest again
     # (bounded number of rounds), so that one finding does not hide a different one later in the same history
     rounds = 0
-    while rounds < 3:
+    while rounds < 2:
         again = []
         for tid, rj in sorted(rejected.items()):
             t = byid[tid]
@@ -346,7 +350,7 @@ def run(prop, tier):
         if not again:
             break
         rounds += 1
-        v2 = lib.validate_traces("FiltersTrace", "FiltersTrace.cfg", again, jobs=njobs)
+        v2 = lib.validate_traces("FiltersTrace", "FiltersTrace.cfg", again, jobs=2)
         rejected = dict((r["id"], r) for r in v2["rejected"])
         allrej += [(tid, rj, copy.deepcopy(byid[tid])) for tid, rj in sorted(rejected.items())]
         val["events"] += v2["events"]
@@ -367,6 +371,10 @@ def run(prop, tier):
                 e["collected"], e.get("note", ""), rj["clause"])
         verdict.reject(lib.sig(prop, rj["clause"]), what, dict(trace=t, concrete=concrete.get(tid), rejected=rj))
 
+    if vacuous and not verdict.violations:
+        raise lib.MachineryError("; ".join(vacuous))
+    for v in vacuous:
+        print("note: %s (violations were found, so this is reported with them)" % v)
     htr = [t for t in traces if t["kind"] == "hist"]
     ctr = [t for t in traces if t["kind"] == "content"]
     nontrivial = len(set(json.dumps([c["g"], c["hist"]], sort_keys=True) for c in hcases if hist_nontrivial(c))) + \
@@ -399,6 +407,36 @@ def run(prop, tier):
                                           states=st.distinct),
                    invariants_checked_on_model=HIST_INV + ["LookupIsUnion"] + CONTENT_INV, exhaustive=False))
     return verdict.finish(ev)
+
+
+def replay(prop, path):
+    """Re-execute a recorded history against the current tree (contents: re-validate the recorded observation,
+    whose concrete filters and lines are in the file) and validate it again."""
+    with open(path) as f:
+        rec = json.load(f)
+    t = rec["replay"]["trace"]
+    print("replaying %s (%s)" % (t["id"], rec["signature"]))
+    if t["kind"] == "hist":
+        hist = [dict(op="add", k=e["k"], pats=e["pats"], mx=e["mx"]) if e["ev"] == "add"
+                else dict(op="get", k=e["c"], pats=[], mx=0) for e in t["events"]]
+        out = lib.run_driver("drive_filters.py", dict(mode="hist", seed=lib.seed(),
+                                                      cases=[dict(id=t["id"], g=t["g"], hist=hist)]))
+        traces = out["traces"]
+        for x in traces:
+            for e in x["events"]:
+                if e["ev"] == "get":
+                    e["skip"] = False
+    else:
+        print("concrete case: %s" % json.dumps(rec["replay"].get("concrete"), ensure_ascii=False))
+        traces = [t]
+    val = lib.validate_traces("FiltersTrace", "FiltersTrace.cfg", traces, jobs=1)
+    for x in traces:
+        print(json.dumps(x, sort_keys=True)[:3000])
+    for r in val["rejected"]:
+        print("REJECTED %s at event %d: %s" % (r["id"], r["line"], r["clause"]))
+    if not val["rejected"]:
+        print("accepted: the case no longer violates C07 on this tree")
+    return 1 if val["rejected"] else 0
 
 
 def _short(e):
